@@ -91,9 +91,10 @@ class ShapeError(Exception):
 class Walker:
     """deterministic interpretation of one body under a valuation of atoms"""
 
-    def __init__(self, f, max_steps=4000):
+    def __init__(self, f, max_steps=4000, cut_loops=False):
         self.f = f
         self.max_steps = max_steps
+        self.cut_loops = cut_loops
 
     def _opval(self, env, op):
         f = self.f
@@ -148,6 +149,8 @@ class Walker:
             steps += 1
             if steps > self.max_steps:
                 raise ShapeError('loop or too many steps in %s' % f.key)
+            if self.cut_loops and bb in trace:
+                return ('cut', bb), events, trace
             trace.append(bb)
             b = f.blocks[bb]
             for st in b['s']:
